@@ -533,7 +533,10 @@ def ro_session(ck, rng, idx):
             ro = FileStorage(path, read_only=True)
         except Exception as e:
             rec.readonly_guard = False
-            viol.append(('C09:ro-open-raised', 'read-only open (%s) raised %s %s' % (mode, L.ename(e), str(e)[:120]),
+            sig = 'C09:ro-open-raised'
+            if isinstance(e, OSError) and e.errno == 22:
+                sig = 'C09:sanity-walk-before-file-start'
+            viol.append((sig, 'read-only open (%s) raised %s %s' % (mode, L.ename(e), str(e)[:120]),
                          dict(history=hist, mode=mode)))
             if writer is not None:
                 if md is not None:
@@ -614,7 +617,6 @@ def main(argv=None):
     else:
         for fn, j in load_corpus():
             runs.append((fn, j['history'], j.get('pack')))
-        runs.append(('recipe-stale-index', recipe_history(), False))
         ngen = 6 if not ck.thorough else 120
         npack = 10 if not ck.thorough else 150
         for i in range(ngen):
